@@ -34,6 +34,7 @@ type mutant struct {
 	raw         []byte       // serialized form offered to the node (nil: blk is used as is)
 	blk         *block.Block // for mutants that cannot be serialized differently
 	headerValid bool         // header is validly signed and linked: it may be recorded
+	valid       bool         // a correct block in another accepted form: must be accepted
 }
 
 type snapshot struct {
@@ -114,6 +115,32 @@ type ctx struct {
 
 // resign signs b by the real validators. The header caches its hash, so the
 // signature is made over a freshly parsed copy of the modified block.
+// altWitness signs the block header with the validators 1..m (skipping the
+// first one the standard signer uses): another, equally valid witness.
+func (c *ctx) altWitness(b *block.Block) []byte {
+	ms, ok := c.p.Val.(neotest.MultiSigner)
+	if !ok {
+		return nil
+	}
+	var n int
+	func() {
+		defer func() { _ = recover() }()
+		for ; ; n++ {
+			ms.Single(n)
+		}
+	}()
+	m := n - (n-1)/3
+	if m >= n {
+		return nil
+	}
+	hdr := c.freshHeader(b)
+	var inv []byte
+	for i := n - m; i < n; i++ {
+		inv = append(inv, ms.Single(i).SignHashable(c.magic, hdr)...)
+	}
+	return inv
+}
+
 func (c *ctx) resign(b *block.Block) {
 	b.Script.InvocationScript = c.p.Val.SignHashable(c.magic, c.freshHeader(b))
 }
@@ -399,6 +426,94 @@ func (c *ctx) catalogue(n int, prevTs uint64) []mutant {
 var _ = hash.Sha256
 
 // staleAndConcurrent: see the call site.
+// pooledThenConflictedByCosigner: a transaction with two signers is pooled; a
+// (correct) block then carries a transaction signed by its SECOND signer only
+// that names it in a Conflicts attribute; the next block offered contains the
+// pooled transaction. It is invalid from the first block on (an on-chain
+// conflict of one of its signers) whether the pool has noticed or not.
+func (c *ctx) pooledThenConflictedByCosigner(run *ev.Run, hi, st int) {
+	p, h := c.p, c.h
+	id := fmt.Sprintf("h%d/state%d/pooled-then-conflicted-by-cosigner", hi, st)
+	if !run.Want(id) {
+		return
+	}
+	rep, err := vchain.OpenReplica(c.t, vchain.ReplicaCfg{Name: "c06cosig", Cfg: h.Proto})
+	if err != nil {
+		c.t.Fatal(err)
+	}
+	defer func() { rep.Close() }()
+	for i := 0; i < st; i++ {
+		if err := rep.AddRaw(p.Raw[i]); err != nil {
+			c.t.Fatalf("replay: %v", err)
+		}
+	}
+	busy := map[util.Uint160]bool{}
+	for _, tx := range p.Blocks[st].Transactions {
+		for _, sg := range tx.Signers {
+			busy[sg.Account] = true
+		}
+	}
+	var us []*vchain.User
+	for _, cand := range p.Users {
+		if !busy[cand.Hash()] && !cand.Blocked && rep.BC.GetUtilityTokenBalance(cand.Hash(), util.Uint160{}).Int64() > 100_0000_0000 {
+			us = append(us, cand)
+		}
+	}
+	if len(us) < 2 {
+		run.Obs("pooled_then_conflicted_skipped", 1)
+		return
+	}
+	u, v := us[0], us[1]
+	magic := p.BC.GetConfig().Magic
+	victim := transaction.New([]byte{byte(opcode.RET)}, 1000_0000)
+	victim.Nonce = uint32(c.r.Uint32())
+	victim.ValidUntilBlock = uint32(st + 3)
+	victim.NetworkFee = 4000_0000
+	victim.Signers = []transaction.Signer{{Account: u.Hash(), Scopes: transaction.CalledByEntry}, {Account: v.Hash(), Scopes: transaction.CalledByEntry}}
+	if u.S.SignTx(magic, victim) != nil || v.S.SignTx(magic, victim) != nil {
+		c.t.Fatal("sign")
+	}
+	if err := rep.BC.PoolTx(victim); err != nil {
+		run.Obs("pooled_then_conflicted_skipped", 1)
+		return
+	}
+	k := c.userTx(v, uint32(st+2), 4000_0000, 1000_0000, []byte{byte(opcode.RET)}, transaction.Attribute{Type: transaction.ConflictsT, Value: &transaction.Conflicts{Hash: victim.Hash()}})
+	a := clone(p.Blocks[st], c.srih)
+	a.Transactions = append(a.Transactions, k)
+	a.RebuildMerkleRoot()
+	c.resign(a)
+	ablk, derr := vchain.DecodeBlock(vchain.EncodeBlock(a), c.srih)
+	if derr != nil {
+		c.t.Fatal(derr)
+	}
+	if err := rep.BC.AddBlock(ablk); err != nil {
+		// the conflicting transaction itself was not acceptable here (fee policy of
+		// this height, a blocked account): nothing to observe
+		run.Obs("pooled_then_conflicted_skipped", 1)
+		return
+	}
+	run.Case(id, true)
+	run.Obs("pooled_then_conflicted_by_cosigner_cases", 1)
+	e := neotest.NewExecutor(c.t, rep.BC, p.Val, p.Com)
+	b := e.NewUnsignedBlock(c.t, victim)
+	e.SignBlock(b)
+	bblk, derr := vchain.DecodeBlock(vchain.EncodeBlock(b), c.srih)
+	if derr != nil {
+		c.t.Fatal(derr)
+	}
+	opts := p.ObsOpts()
+	before := snap(rep, opts)
+	wit := map[string]any{"history": 1000 + hi, "state": st, "still_pooled": rep.BC.GetMemPool().ContainsKey(victim.Hash())}
+	if err := rep.BC.AddBlock(bblk); err == nil {
+		run.Violation("corrupted-block-accepted:pooled-transaction-named-by-on-chain-conflict-of-its-second-signer", id, fmt.Sprintf("transaction pooled at height %d, named by a Conflicts attribute of a transaction of its second signer in block %d, accepted in block %d", st, st+1, st+2), wit)
+		return
+	}
+	after := snap(rep, opts)
+	if after.height != before.height {
+		run.Violation("rejected-block-changed-height:pooled-then-conflicted-by-cosigner", id, fmt.Sprintf("%d -> %d", before.height, after.height), wit)
+	}
+}
+
 func (c *ctx) staleAndConcurrent(run *ev.Run, hi, st int) {
 	p, h := c.p, c.h
 	id := fmt.Sprintf("h%d/state%d/pooled-then-stale", hi, st)
@@ -620,6 +735,14 @@ func TestCheck(t *testing.T) {
 					prevTs = p.Blocks[st-1].Timestamp
 				}
 				ms := c.catalogue(n, prevTs)
+				if inv := c.altWitness(p.Blocks[st]); inv != nil && st%2 == 1 {
+					// the genuine block under another valid witness (other validators of the
+					// same set signed): with the header recorded ahead under the first
+					// witness, and without
+					m := clone(p.Blocks[st], srih)
+					m.Script.InvocationScript = inv
+					ms = append([]mutant{{name: "valid:witness-of-another-validator-subset", raw: vchain.EncodeBlock(m), valid: true}}, ms...)
+				}
 				if ahead {
 					// with the header recorded only the body can differ: same hash, other witness
 					b := p.Blocks[st]
@@ -669,6 +792,16 @@ func TestCheck(t *testing.T) {
 					name := m.name
 					if ahead && !strings.HasPrefix(name, "headers-ahead:") {
 						name = "headers-ahead:" + name
+					}
+					if m.valid {
+						if aerr != nil {
+							run.Violation("correct-block-rejected:"+name, id, fmt.Sprintf("state %d: %v", st, aerr), wit)
+						} else {
+							run.Obs("correct_blocks_in_another_form_accepted", 1)
+						}
+						fresh()
+						before = snap(rep, opts)
+						continue
 					}
 					if aerr == nil {
 						run.Violation("corrupted-block-accepted:"+name, id, fmt.Sprintf("state %d: block with %s was added", st, m.name), wit)
@@ -726,6 +859,7 @@ func TestCheck(t *testing.T) {
 				// offered by several goroutines at once
 				if !ahead && st+3 < len(p.Blocks) {
 					c.staleAndConcurrent(run, hi, st)
+					c.pooledThenConflictedByCosigner(run, hi, st)
 					c.witnessTurnsInvalid(run, hi, st)
 				}
 				// late rejection: with state roots in headers, a block whose successor
